@@ -9,7 +9,7 @@ class Prop(PropBase):
     REQUIRED = ["Tpp.Props.C10." + n for n in (
         "C10_decode_spelling", "C10_decode_spelling_eq", "C10_canonical", "C10_canonical_eq", "C10_plain", "C10_utf8",
         "C10_reset", "C10_persist", "C10_persist_charset", "C10_ete_spelling", "C10_encode_terminates")]
-    RULE = ("exhaustive sweeps: every directive form once and every ordered pair of 58 representative directives in one "
+    RULE = ("runs: after a spelling with directives (often a non-default charset, optionally a \\U glyph) a run of 1-200 literally written glyphs - one repeated character, the first UTF-8 byte of the preceding \\U glyph repeated, or mixed; exhaustive sweeps: every directive form once and every ordered pair of 58 representative directives in one "
             "element followed by a directive-less element; every one of the 38 decoder states (reached through a canonical prefix, in 3 element "
             "contexts) x every next byte 0..255 x 4 distinguishing suffixes, through encode and _ete; all \\C000-\\C999; "
             "all 65536 \\Uxxxx (thorough; quick: stride 7 plus all range boundaries), in random letter case; all 1000 "
@@ -118,6 +118,25 @@ class Prop(PropBase):
             sps = [G.random_spelling(rng) for _ in range(k)]
             kind = "E" if i % 8 else ("s" if i % 16 else "e")
             cs.append(G.spelling_case(kind, sps, tag="random-spellings-%s" % kind))
+        # ---- 5b. runs: a spelling with directives (a non-default charset more often than not), then a RUN of glyphs written
+        # literally with no directive of their own - long runs (32, 33, 64, 200 characters), runs of one repeated
+        # character, and runs repeating the first UTF-8 byte of a preceding \\U glyph
+        for i in range(1500 if not thorough else 20000):
+            sps = [[G.d_charset(rng.randrange(24))] + G.random_spelling(rng)] if rng.random() < 0.7 else [G.random_spelling(rng)]
+            if rng.random() < 0.5:
+                v = rng.choice(G.UNI_EDGES + [0x2D, 0x2500, 0xE9, 0x41]) if rng.random() < 0.6 else rng.randrange(0x10000)
+                sps.append([G.g_uni(G.mixed_hex(rng, v, 4))])
+                rep = G.utf8_bytes(v)[0]
+            else:
+                rep = rng.choice([0x2D, 0x61, 0x20, 0x80, 0xE2])
+            n = rng.choice([1, 3, 4, 5, 8, 31, 32, 33, 64, 200])
+            if rng.random() < 0.6:
+                sps += [[G.g_lit(rep)] for _ in range(n)]
+            else:
+                sps += [[G.g_lit(rng.choice([rng.randrange(0x20, 0x7F), rep, 0x41]))] for _ in range(n)]
+            sps.append(G.random_spelling(rng))
+            kind = "E" if i % 4 else "s"
+            cs.append(G.spelling_case(kind, sps, tag="runs-%s" % kind))
         # ---- 6. random Expressible strings through canonical markup
         n_k = 4000 if not thorough else 60000
         for i in range(n_k):
